@@ -152,6 +152,43 @@ def oracle_wellformed(case, ctx):
         frac = float(np.mean(pred2 == y))
         if not np.isclose(float(s), frac, atol=1e-12):
             discs.append(D("score_not_fraction_of_matches:%s" % kind, "score %r, fraction %r" % (s, frac)))
+    # unseen, noisy instances (ensemble members disagree, votes tie): the same clauses hold
+    n_new = case.get("n_new") or 0
+    if n_new and not discs:
+        Xn3 = panelpool.panel_values(case["seed"] + 5, n_new, c, t)
+        Xn = panelpool.to_nested(Xn3) if case["container"] == "nested" else Xn3
+        Pn = sut(clf.predict_proba, Xn)
+        if isinstance(Pn, Raised):
+            return discs + [D("apply_raised:%s.predict_proba:%s@%s" % (kind, Pn.type, Pn.where), "unseen instances: " + Pn.msg)]
+        Pn = np.asarray(Pn, dtype=float)
+        if Pn.shape != (n_new, len(want_classes)):
+            return discs + [D("proba_shape:%s" % kind, "unseen instances: shape %s expected %s" % (Pn.shape, (n_new, len(want_classes))))]
+        if np.any(Pn < -1e-12) or np.any(Pn > 1 + 1e-12) or np.any(~np.isfinite(Pn)):
+            discs.append(D("proba_range:%s" % kind, "unseen instances: min %r max %r" % (Pn.min(), Pn.max())))
+        elif not np.allclose(Pn.sum(axis=1), 1.0, atol=1e-9):
+            discs.append(D("proba_rows_do_not_sum_to_one:%s" % kind, "unseen instances: row sums %s" % Pn.sum(axis=1)[:6].tolist()))
+        pn = sut(clf.predict, Xn)
+        if isinstance(pn, Raised):
+            return discs + [D("apply_raised:%s.predict:%s@%s" % (kind, pn.type, pn.where), "unseen instances: " + pn.msg)]
+        pn = np.asarray(pn)
+        tied = False
+        for i in range(min(n_new, len(pn))):
+            lab = pn[i].item() if hasattr(pn[i], "item") else pn[i]
+            match = [j for j, v in enumerate(want_classes) if v == lab and type(v) is type(lab)]
+            top = np.flatnonzero(np.isclose(Pn[i], Pn[i].max(), atol=1e-9))
+            if len(top) > 1:
+                tied = True
+                if list(top) != list(range(len(top))):
+                    ctx.label("tie_not_among_first_classes")
+            if not match:
+                discs.append(D("predict_label_not_a_training_label:%s" % kind, "unseen instance: predicted %r (%s), training labels %r" % (lab, type(lab).__name__, want_classes)))
+                break
+            if Pn[i, match[0]] < Pn[i].max() - 1e-9:
+                discs.append(D("predict_not_argmax_of_proba:%s" % kind, "unseen instance %d: predicted %r with p=%r, probabilities %s over %s"
+                               % (i, lab, Pn[i, match[0]], Pn[i].tolist(), want_classes)))
+                break
+        if tied:
+            ctx.label("tied_maximum")
     return discs
 
 
@@ -299,12 +336,15 @@ def wf_cases(draw):
     kind = draw(st.sampled_from(panelpool.CLASSIFIERS))
     k = draw(st.integers(2, 4))
     return {
-        "spec": {"kind": kind, "random_state": draw(st.integers(0, 100)), "n_columns": draw(st.integers(1, 2))},
+        "spec": dict({"kind": kind, "random_state": draw(st.integers(0, 100)), "n_columns": draw(st.integers(1, 2)),
+                      "max_ensemble_size": draw(st.sampled_from([2, 3, 4]))},
+                     **({"_vsp": True} if draw(st.integers(0, 3)) == 0 else {})),
         "n_classes": k, "n_train": draw(st.integers(2 * k + 2, 14)), "t": draw(st.integers(16, 30)),
         "seed": draw(st.integers(0, 10 ** 6)), "separable": draw(st.booleans()), "prefit": draw(st.integers(0, 3)) == 0, "dup": draw(st.integers(0, 2)) == 0,
         "label_kind": draw(st.sampled_from(["int", "int_gap", "str", "float"])),
         "unbalanced": draw(st.booleans()), "y_as_series": draw(st.booleans()),
         "container": draw(st.sampled_from(["nested", "numpy3d"])),
+        "n_new": draw(st.sampled_from([0, 6, 12])),
     }
 
 
@@ -335,10 +375,11 @@ def enum_wf_every_kind(tier):
     conflicting duplicates}, on fixed panels (the discrete part of the domain, exhaustively)."""
     import itertools
 
-    for kind, lk, k, prefit, dup in itertools.product(panelpool.CLASSIFIERS, ["int", "int_gap", "str", "float"], [2, 3], [False, True], [False, True]):
-        yield {"spec": {"kind": kind, "random_state": 7, "n_columns": 2 if kind == "cec" else 1}, "n_classes": k, "n_train": 10, "t": 24,
+    for kind, lk, k, prefit, dup in itertools.product(panelpool.CLASSIFIERS, ["int", "int_gap", "str", "float"], [2, 3, 4], [False, True], [False, True]):
+        yield {"spec": {"kind": kind, "random_state": 7, "n_columns": 2 if kind == "cec" else 1, "max_ensemble_size": 2}, "n_classes": k,
+               "n_train": 10 if k < 4 else 12, "t": 24,
                "seed": 1234 + k, "separable": not dup, "prefit": prefit, "dup": dup, "label_kind": lk, "unbalanced": k == 3,
-               "y_as_series": lk == "str", "container": "nested" if prefit else "numpy3d"}
+               "y_as_series": lk == "str", "container": "nested" if prefit else "numpy3d", "n_new": 12}
 
 
 def subchecks():
